@@ -6,10 +6,11 @@ from props import shuf, wire
 TRUSTED = BASE_TRUSTED + ["rayon's work stealing implements the split/join semantics of Model/Par.v (trusted); data-race freedom is Rust's Send/Sync typing"]
 RULE = ("a corpus of deterministic operations (vector (de)serialization of every wire type with 0..300 items, generators, "
         "per-index and final shuffle challenges for N up to 300, joint_dec_many, verify_decryption_factors, check_proof on honest "
-        "and mutated proofs, N up to 50 quick / 300 thorough) is executed by the sequential harness build and by the rayon build "
+        "and mutated proofs — every index of every per-ciphertext vector for N <= 50 —, structurally altered vector encodings (surplus / missing byte inside an item, bumped count, swapped items), N up to 50 quick / 300 thorough) is executed by the sequential harness build and by the rayon build "
         "under RAYON_NUM_THREADS in {1,2,3,7,16}, twice each: every output must be identical; shuffles+proofs produced by the rayon "
         "build (OS randomness) verify and decrypt in the sequential build and vice versa; a sample of the rayon outputs is also "
-        "compared with the Gallina model")
+        "compared with the Gallina model; large inputs (labels of 70 KB / 300 KB / 1.2 MB in shuffle, Schnorr and hash_to_exp "
+        "transcripts, 3000 (thorough 12000) ciphertext statements and vectors) compared between the builds only")
 
 
 def run(env):
@@ -32,6 +33,22 @@ def run(env):
             sk = r.randrange(1, q_)
             rows = [[str(pow(int(c[1]), s_, P_)) for c in cs] for s_ in (sk, sk + 1, 7)]
             add(ctx, "joint_dec_many", [rows, cs], "joint_dec_many")
+    # large inputs (sizes at which a parallel build would plausibly switch to chunked / tree evaluation): megabyte
+    # labels, thousands of items; compared between the builds and thread counts only (cheap on the implementation)
+    bctx = "B:%d" % P62; P_, q_, g_ = pq(bctx)
+    es3 = [str(rnd_member(r, bctx)) for _ in range(3)]; cs3 = [[str(rnd_member(r, bctx)), str(rnd_member(r, bctx))] for _ in range(3)]
+    for nbytes in (70000, 300000, 1200000):
+        lab = "x:" + r.randbytes(nbytes).hex()
+        add(bctx, "shuffle_us", ["4", cs3, cs3, es3, "3", lab], "shuffle_us-label%dk" % (nbytes // 1000))
+        add("M:23", "hash_to_exp", [lab], "hash_to_exp-%dk" % (nbytes // 1000))
+        add(bctx, "schnorr_verify", [es3[0], None, [es3[1], "5", "7"], lab], "schnorr_verify-label%dk" % (nbytes // 1000))
+    nbig = 3000 if env.quick else 12000
+    esb = [str(rnd_member(r, "B:2039")) for _ in range(nbig)]
+    csb = [[esb[i], esb[(7 * i + 1) % nbig]] for i in range(nbig)]
+    add("B:2039", "shuffle_us", ["4", csb, list(reversed(csb)), esb, str(nbig), "x:6c"], "shuffle_us-N%d" % nbig)
+    add("B:2039", "ser_vec_c", [csb], "ser-N%d" % nbig)
+    add("M:2039", "ser_vec_e", [esb], "ser-N%d" % nbig)
+    add("M:2039", "generators", [str(nbig // 3), "x:62"], "generators-N%d" % (nbig // 3))
     seq_out1 = env.harness(corpus)
     # decode what was encoded (items produced by the sequential build)
     dec = []
@@ -41,6 +58,34 @@ def run(env):
             if len(wire.unhx(o)) > 12:
                 b = bytearray(wire.unhx(o)); b[len(b) // 2] ^= 0x40
                 dec.append({"ctx": c["ctx"], "op": "de_" + c["op"][4:], "args": [hexb(bytes(b))], "tag": "de-mutated"})
+    # structural surgery on Vec<Vec<u8>> encodings (u32 count, then per item u32 length + bytes): an item carrying a
+    # surplus byte inside its own length, a shortened item, a bumped count, two items swapped — decoded by both builds
+    import struct
+    def svec_parse(b):
+        n = struct.unpack_from("<I", b, 0)[0]; off = 4; items_ = []
+        for _ in range(n):
+            ln = struct.unpack_from("<I", b, off)[0]; items_.append(b[off + 4: off + 4 + ln]); off += 4 + ln
+        return items_ if off == len(b) else None
+    def svec_build(items_, count=None):
+        return struct.pack("<I", len(items_) if count is None else count) + b"".join(struct.pack("<I", len(x)) + x for x in items_)
+    for c, o in zip(list(corpus), seq_out1):
+        if not c["op"].startswith("ser_vec") or not isinstance(o, str) or len(o) > 20000:
+            continue
+        its = svec_parse(wire.unhx(o))
+        if not its:
+            continue
+        dop = "de_" + c["op"][4:]
+        def surgery(b_, tg):
+            dec.append({"ctx": c["ctx"], "op": dop, "args": [hexb(b_)], "tag": "de-surgery-" + tg})
+        for i in sorted({0, len(its) - 1, len(its) // 2}):
+            v = list(its); v[i] = v[i] + b"\x00"; surgery(svec_build(v), "item+1byte")
+            v = list(its); v[i] = v[i] + v[i][-1:] * 2; surgery(svec_build(v), "item+2bytes")
+            if len(its[i]) > 0:
+                v = list(its); v[i] = v[i][:-1]; surgery(svec_build(v), "item-1byte")
+        surgery(svec_build(its, count=len(its) + 1), "count+1")
+        surgery(svec_build(its) + b"\x00", "trailing-byte")
+        if len(its) >= 2:
+            v = list(its); v[0], v[-1] = v[-1], v[0]; surgery(svec_build(v), "swapped")
     corpus += dec
     # proofs: honest and mutated
     specs = []
@@ -53,9 +98,12 @@ def run(env):
         P_, q_, g_ = pq(sp["ctx"]); fl = sp["ctx"][0]
         corpus.append(shuf.check_case(sp, tag="check-honest"))
         pf = wire.parse_proof(fl, wire.unhx(sp["_proof"]))
-        for k in ("s_hats", "t_hats", "cs"):
-            m = copy.deepcopy(pf); i = r.randrange(sp["n"]); m[k][i] = (m[k][i] + 1) % q_ if k == "s_hats" else (m[k][i] * g_) % P_
-            corpus.append(shuf.check_case(sp, proof=wire.hx(wire.proof_bytes(fl, m)), tag="check-mutated"))
+        for k in ("s_hats", "t_hats", "cs", "c_hats", "s_primes"):
+            # every index for N <= 50 (a parallel verifier that splits the per-ciphertext equations into per-thread
+            # blocks must not lose a remainder), a random one above
+            for i in (range(sp["n"]) if sp["n"] <= 50 else [r.randrange(sp["n"]), sp["n"] - 1]):
+                m = copy.deepcopy(pf); m[k][i] = (m[k][i] + 1) % q_ if k in ("s_hats", "s_primes") else (m[k][i] * g_) % P_
+                corpus.append(shuf.check_case(sp, proof=wire.hx(wire.proof_bytes(fl, m)), tag="check-mutated-%s[%d]" % (k, i)))
         corpus.append({"ctx": sp["ctx"], "op": "shuffle_challenge", "args": [sp["_pk"], sp["_es"], sp["_out"], sp["_proof"], "x:72"], "tag": "shuffle_challenge"})
         # batch verification
         if sp["n"] <= 50:
@@ -68,6 +116,8 @@ def run(env):
     for c, o in zip(corpus, ref):
         if c["tag"] == "check-honest" and o is not True:
             env.violation("sequential build rejects an honest proof", {"kind": "battery", "case": c})
+        if c["tag"].startswith("check-mutated") and o is True:
+            env.violation("sequential build accepts a mutated proof (%s)" % c["tag"], {"kind": "battery", "case": c})
     n_cmp = 0
     for threads in (1, 2, 3, 7, 16):
         for rep in range(2 if not env.quick or threads in (2, 7) else 1):
